@@ -216,6 +216,13 @@ func checkValue(t TB, v *vcase, pver uint32, enc wire.MessageEncoding, net wire.
 	if err := fresh.BtcEncode(&buf2, pver, enc); err != nil || !bytes.Equal(buf2.Bytes(), payload) {
 		t.Fatalf("%s at pver %d: re-encoding the decoded value: err=%v %s", v.kind, pver, err, diffBytes(payload, buf2.Bytes()))
 	}
+	// a receiver that is used again (a message object kept across reads) holds the value of the LAST decode
+	if err := fresh.BtcDecode(bytes.NewBuffer(append([]byte(nil), payload...)), pver, enc); err != nil {
+		t.Fatalf("%s at pver %d enc %d: second BtcDecode into the same receiver failed: %v", v.kind, pver, enc, err)
+	}
+	if got := canon(fresh, pver, enc); got != want {
+		t.Fatalf("%s at pver %d enc %d: a second BtcDecode into the same receiver gives a value that differs from the encoded one: %s", v.kind, pver, enc, firstDiff(want, got))
+	}
 	// framing
 	frame := wirefmt.Message(uint32(net), v.kind, payload)
 	var w bytes.Buffer
